@@ -3,20 +3,20 @@ CONSTANTS
   Cons = {"s1", "s2"}
   Healthy = {}
   Other = {}
-  N = 3
+  N = 2
   HCap = 64
   Parts = 1
   ElemParts = 1
-  WsMode = TRUE
+  WsMode = FALSE
   EnqAcct = FALSE
   HasDeadline = TRUE
   Prime = FALSE
-  MaxPub = 4
+  MaxPub = 2
   MaxRead = 2
   MaxStall = 2
-  MaxSweep = 2
+  MaxSweep = 1
   MaxLeave = 0
   MaxPubB = 0
-  MaxCmd = 0
+  MaxCmd = 2
 INVARIANTS WholeUnits NoBlocking QueueBound
 VIEW FineView
